@@ -22,10 +22,11 @@ Record quirks := {
   q_leaf_parent : bool;    (* #6  non-composite spread parent -> secondary error *)
   q_unwrap_obj : bool;     (* object literal for a list of input objects *)
   q_depth : bool;          (* overlap recursion bounded by the number of fields *)
-  q_noninput : bool }.     (* default value for a variable of non-input type *)
+  q_noninput : bool;       (* default value for a variable of non-input type *)
+  q_impl_features : bool }.  (* #30 getPossibleTypes lists only implementations the request can see *)
 Definition repaired : quirks :=
   {| q_descend := true; q_revisit_ok := true; q_nil_arg := true; q_leaf_parent := true;
-     q_unwrap_obj := true; q_depth := true; q_noninput := true |}.
+     q_unwrap_obj := true; q_depth := true; q_noninput := true; q_impl_features := true |}.
 
 (** a Go [range] over a map: some permutation of the entries *)
 Definition order := forall A : Type, list A -> list A.
@@ -309,6 +310,117 @@ Section Validator.
                           (snd g))
               (pi _ m).
 
+  (** ** the same with the sets of checked pairs (repair 92e8fdd: [checkedFieldPairs], [alreadyChecked]).
+      A pair of fields is identified by the two fields' positions (Go: the two *ast.Field pointers);
+      the state is threaded through the loops; after an error it is irrelevant (validateFields starts
+      over with empty sets). *)
+  Definition pairset := list (pos * pos).
+  Definition memo := (pairset * pairset)%type.          (* canMerge, sameResponseShape *)
+  Definition memo0 : memo := ([], []).
+  Definition pair_mem (a b : pos) (l : pairset) : bool :=
+    existsb (fun x => pos_eqb a (fst x) && pos_eqb b (snd x)) l.
+  Definition has_sub (s : selection) : bool := match sel_sub s with Some _ => true | None => false end.
+  (** alreadyChecked: was the pair there, and the set afterwards *)
+  Definition already (set : pairset) (A B : selection) : bool * pairset :=
+    if negb (has_sub A) && negb (has_sub B) then (false, set)
+    else if pair_mem (sel_pos A) (sel_pos B) set then (true, set)
+    else (false, (sel_pos A, sel_pos B) :: set).
+
+  Fixpoint first_err_m {A} (f : A -> memo -> mres * memo) (l : list A) (mm : memo) : mres * memo :=
+    match l with
+    | [] => (MOk, mm)
+    | x :: r => match f x mm with (MOk, mm') => first_err_m f r mm' | other => other end
+    end.
+  Fixpoint pairs_first_m {A} (f : A -> A -> memo -> mres * memo) (l : list A) (mm : memo) : mres * memo :=
+    match l with
+    | [] => (MOk, mm)
+    | x :: r => match first_err_m (f x) r mm with (MOk, mm') => pairs_first_m f r mm' | other => other end
+    end.
+
+  Fixpoint same_shape_m (depth : nat) (A B : selection) (mm : memo) : mres * memo :=
+    match depth with
+    | O => (if q_depth q then MErr (sec EDepth (sel_pos A)) else MPanic PStackOverflow, mm)
+    | Datatypes.S depth' =>
+        let '(seen, ss') := already (snd mm) A B in
+        if seen then (MOk, mm)
+        else
+          let mm1 : memo := (fst mm, ss') in
+          match shape_type A with
+          | inr e => (MErr e, mm1)
+          | inl tA =>
+              match shape_type B with
+              | inr e => (MErr e, mm1)
+              | inl tB =>
+                  match shape_loop tA tB with
+                  | inr k => (MErr (err2 k (sel_pos A) (sel_pos B)), mm1)
+                  | inl (a, b) =>
+                      if is_leaf_sty a || is_leaf_sty b then
+                        (if sty_eqb a b then MOk else MErr (err2 EShapeLeaf (sel_pos A) (sel_pos B)), mm1)
+                      else
+                        match add_selections [] (sel_sub A) with
+                        | CErr e => (MErr e, mm1)
+                        | CFuel => (MFuel, mm1)
+                        | COk m1 _ =>
+                            match add_selections m1 (sel_sub B) with
+                            | CErr e => (MErr e, mm1)
+                            | CFuel => (MFuel, mm1)
+                            | COk m2 _ =>
+                                first_err_m (fun g => pairs_first_m (fun x y => same_shape_m depth' (fst3 x) (fst3 y)) (snd g))
+                                            (pi _ m2) mm1
+                            end
+                        end
+                  end
+              end
+          end
+    end.
+
+  Definition pair_check_m (recur : fmap -> memo -> mres * memo) (depth : nat) (x y : fp) (mm : memo) : mres * memo :=
+    let A := fst3 x in
+    let B := fst3 y in
+    let '(seen, cm') := already (fst mm) A B in
+    if seen then (MOk, mm)
+    else
+      match same_shape_m depth A B (cm', snd mm) with
+      | (MOk, mm2) =>
+          match snd (fst x) with
+          | None => (MErr (sec ENoSelSetInfo (snd x)), mm2)
+          | Some pa =>
+              match snd (fst y) with
+              | None => (MErr (sec ENoSelSetInfo (snd y)), mm2)
+              | Some pb =>
+                  if name_eqb pa pb || negb (is_object_name pa) || negb (is_object_name pb) then
+                    if negb (name_eqb (sel_name A) (sel_name B)) then
+                      (MErr (err2 EMergeNames (sel_npos A) (sel_npos B)), mm2)
+                    else
+                      match args_check A B with
+                      | MOk =>
+                          match add_selections [] (sel_sub A) with
+                          | CErr e => (MErr e, mm2)
+                          | CFuel => (MFuel, mm2)
+                          | COk m1 _ =>
+                              match add_selections m1 (sel_sub B) with
+                              | CErr e => (MErr e, mm2)
+                              | CFuel => (MFuel, mm2)
+                              | COk m2 _ => recur m2 mm2
+                              end
+                          end
+                      | other => (other, mm2)
+                      end
+                  else (MOk, mm2)
+              end
+          end
+      | other => other
+      end.
+
+  Fixpoint can_merge_m (depth : nat) (m : fmap) (mm : memo) : mres * memo :=
+    first_err_m (fun g => pairs_first_m
+                            (pair_check_m (match depth with
+                                           | O => fun _ mm' => (MOk, mm')
+                                           | Datatypes.S d => can_merge_m d
+                                           end) depth)
+                            (snd g))
+                (pi _ m) mm.
+
   (** ** rule states *)
   Inductive abort := APanic (s : site) | AFuel.
   Record rst := { r_errs : list verror; r_stack : list scope; r_abort : option abort }.
@@ -461,6 +573,29 @@ Section Validator.
     let st2 := inspect merge_enter (fun s => s) (tree_doc D) st1 in
     finish st2.
 
+  (** the second visitor as it is since 92e8fdd: one pair of sets for the whole of validateFields,
+      emptied after a reported conflict *)
+  Definition merge_enter_m (st : rst * memo) (n : node) : (rst * memo) * bool :=
+    match n with
+    | NSelSet ss =>
+        match add_selections [] (Some ss) with
+        | CErr e => ((add_errs (fst st) [e], snd st), false)
+        | CFuel => ((set_abort (fst st) AFuel, snd st), false)
+        | COk m _ =>
+            match can_merge_m max_depth m (snd st) with
+            | (MOk, mm) => ((fst st, mm), true)
+            | (MErr e, _) => ((add_errs (fst st) [e], memo0), false)
+            | (MPanic s, _) => ((set_abort (fst st) (APanic s), memo0), false)
+            | (MFuel, _) => ((set_abort (fst st) AFuel, memo0), false)
+            end
+        end
+    | _ => (st, true)
+    end.
+  Definition rule_fields_m : outcome :=
+    let st1 := inspect fields_enter pop (tree_doc D) rst0 in
+    let st2 := inspect merge_enter_m (fun s => s) (tree_doc D) (st1, memo0) in
+    finish (fst st2).
+
   (** ** validateArguments *)
   Definition required_arg (d : input_def) : bool :=
     is_nonnull (in_type d) && match in_default d with DNone => true | _ => false end.
@@ -593,11 +728,16 @@ Section Validator.
   Definition all_spread_names : list name := inspect spread_names_enter (fun s => s) (tree_doc D) [].
   Definition graph_fuel : nat := Datatypes.S (Datatypes.S (length all_spread_names + length (frag_names D))).
 
-  (** getPossibleTypes *)
+  (** getPossibleTypes: of an interface, the registered implementations whose required features are
+      enabled for the request (repair 0cebc28; before it: all of them) *)
+  Definition impl_visible (o : name) : bool :=
+    if q_impl_features q then
+      match raw_type S o with Some d => subset (t_req d) F | None => true end
+    else true.
   Definition possible_types (tn : name) : option (list name) :=
     match raw_body S tn with
     | Some (TObject _ _) => Some [tn]
-    | Some (TInterface _) => Some (match assoc tn (s_impls S) with Some l => l | None => [] end)
+    | Some (TInterface _) => Some (filter impl_visible (match assoc tn (s_impls S) with Some l => l | None => [] end))
     | Some (TUnion members) => Some members
     | _ => None
     end.
@@ -921,6 +1061,12 @@ Section Validator.
       [rule_operations; rule_fields; rule_arguments; rule_fragments; rule_values; rule_directives; rule_variables]
       rule_document.
 
+  (** the pipeline with the overlapping-fields pass as it is since 92e8fdd *)
+  Definition all_rules_m : outcome :=
+    fold_left seq_outcome
+      [rule_operations; rule_fields_m; rule_arguments; rule_fragments; rule_values; rule_directives; rule_variables]
+      rule_document.
+
   Definition filter_primary (errs : list verror) : list verror :=
     match filter (fun e => negb (e_sec e)) errs with
     | [] => errs
@@ -933,6 +1079,18 @@ Definition validate_model (q : quirks) (pi : order) (S : schema) (F : features) 
   | None => Panic PScopeStack
   | Some A =>
       match all_rules q pi S F A with
+      | Done errs => Done (filter_primary errs)
+      | other => other
+      end
+  end.
+
+(** ValidateDocument as it is on the current tree: with the checked-pairs memo of 92e8fdd in the
+    overlapping-fields pass.  [validate_model] is the same pipeline without the memo. *)
+Definition validate_model_memo (q : quirks) (pi : order) (S : schema) (F : features) (D : document) : outcome :=
+  match type_info (q_unwrap_obj q) S F D with
+  | None => Panic PScopeStack
+  | Some A =>
+      match all_rules_m q pi S F A with
       | Done errs => Done (filter_primary errs)
       | other => other
       end
